@@ -5,6 +5,7 @@ package main
 import (
 	"bytes"
 	"compress/gzip"
+	"context"
 	"errors"
 	"fmt"
 	"io"
@@ -24,6 +25,7 @@ import (
 	"git.metabarcoding.org/obitools/obitools4/obitools4/pkg/obiformats"
 	"git.metabarcoding.org/obitools/obitools4/obitools4/pkg/obiiter"
 	"git.metabarcoding.org/obitools/obitools4/obitools4/pkg/obiseq"
+	"git.metabarcoding.org/obitools/obitools4/obitools4/pkg/obiutils"
 )
 
 type c18 struct{}
@@ -37,9 +39,50 @@ type failSink struct {
 	buf      bytes.Buffer
 	closeErr bool
 	closes   int
+	ek       int   // kind of the errors returned (c18Kinds)
+	werr     error // the error returned by the failing writes (set lazily: one value, as a sticky device error)
+	calls    []int // size of every Write call received (the write boundaries of the layer above)
+	failedAt int   // number of Write calls received before the first failing one (-1: none yet)
 }
 
 var errSinkFull = errors.New("no space left on device")
+
+// the KINDS of error an output can return: the writers must treat every one of them as fatal
+var c18Kinds = []string{"plain", "epipe", "enospc", "eio", "shortwrite", "closedpipe", "osclosed", "ctx-epipe", "bare-epipe", "eagain", "ctx-ctx-enospc", "deadline", "ctx-canceled"}
+
+func c18Err(ek int, op string) error {
+	pe := func(e error) error { return &os.PathError{Op: op, Path: "/injected/out", Err: e} }
+	switch ek {
+	case 1:
+		return pe(syscall.EPIPE) // what (*os.File).Write returns on a pipe whose reader is gone
+	case 2:
+		return pe(syscall.ENOSPC)
+	case 3:
+		return pe(syscall.EIO)
+	case 4:
+		return io.ErrShortWrite
+	case 5:
+		return io.ErrClosedPipe
+	case 6:
+		return pe(os.ErrClosed)
+	case 7:
+		return fmt.Errorf("writing the result: %w", pe(syscall.EPIPE))
+	case 8:
+		return syscall.EPIPE
+	case 9:
+		return pe(syscall.EAGAIN) // Temporary() and Timeout() are true
+	case 10:
+		return fmt.Errorf("flush: %w", fmt.Errorf("device: %w", syscall.ENOSPC))
+	case 11:
+		return pe(os.ErrDeadlineExceeded)
+	case 12:
+		return fmt.Errorf("%s interrupted: %w", op, context.Canceled)
+	}
+	if op == "close" {
+		return errors.New("close: input/output error")
+	}
+	return errSinkFull
+}
 
 func (s *failSink) Write(p []byte) (int, error) {
 	s.mu.Lock()
@@ -52,8 +95,13 @@ func (s *failSink) Write(p []byte) (int, error) {
 		n = 0
 	}
 	s.buf.Write(p[:n])
+	s.calls = append(s.calls, len(p))
 	if n < len(p) {
-		return n, errSinkFull
+		if s.werr == nil {
+			s.werr = c18Err(s.ek, "write")
+			s.failedAt = len(s.calls) - 1
+		}
+		return n, s.werr
 	}
 	return n, nil
 }
@@ -63,7 +111,7 @@ func (s *failSink) Close() error {
 	defer s.mu.Unlock()
 	s.closes++
 	if s.closeErr {
-		return errors.New("close: input/output error")
+		return c18Err(s.ek, "close")
 	}
 	return nil
 }
@@ -177,6 +225,7 @@ type behSink struct {
 	buf      bytes.Buffer
 	closeErr bool
 	closes   int
+	ek       int
 }
 
 func (s *behSink) Write(p []byte) (int, error) {
@@ -208,7 +257,10 @@ func (s *behSink) Write(p []byte) (int, error) {
 	}
 	s.buf.Write(p[:n])
 	if fail {
-		return n, errors.New("input/output error (temporary)")
+		if s.ek == 0 {
+			return n, errors.New("input/output error (temporary)")
+		}
+		return n, c18Err(s.ek, "write")
 	}
 	return n, nil
 }
@@ -218,7 +270,7 @@ func (s *behSink) Close() error {
 	defer s.mu.Unlock()
 	s.closes++
 	if s.closeErr {
-		return errors.New("close: input/output error")
+		return c18Err(s.ek, "close")
 	}
 	return nil
 }
@@ -264,9 +316,10 @@ var c18Commands = []string{"obiconvert", "obigrep", "obiannotate", "obiuniq", "o
 func (c18) Gen(rng *rand.Rand, tier string, emit func(string)) {
 	var lines []string
 	add := func(l string) { lines = append(lines, l) }
-	oneK := func(w string, gz int, k string, cf, own int, arr []c18Arr) {
-		add(fmt.Sprintf("%s gz=%d k=%s cf=%d zlen=0 own=%d %s", w, gz, k, cf, own, c18ArrStr(arr)))
+	oneE := func(w string, gz int, k string, cf, own, ek int, arr []c18Arr) {
+		add(fmt.Sprintf("%s gz=%d k=%s cf=%d zlen=0 own=%d ek=%d %s", w, gz, k, cf, own, ek, c18ArrStr(arr)))
 	}
+	oneK := func(w string, gz int, k string, cf, own int, arr []c18Arr) { oneE(w, gz, k, cf, own, 0, arr) }
 	oneOwn := func(w string, gz, k, cf, own int, arr []c18Arr) { oneK(w, gz, strconv.Itoa(k), cf, own, arr) }
 	one := func(w string, gz, k, cf int, arr []c18Arr) { oneOwn(w, gz, k, cf, 1, arr) }
 	small := []c18Arr{{0, 2}, {1, 1}}
@@ -303,6 +356,24 @@ func (c18) Gen(rng *rand.Rand, tier string, emit func(string)) {
 		oneOwn(w, 0, 1<<20, 1, 0, small) // a failing Close that is never called
 		oneOwn(w, 0, 5000, 0, 0, big)
 		oneOwn(w, 1, 10, 0, 0, small)
+		// every KIND of error at every kind of fault point: first write, final flush of a small result, a chunk written
+		// in turn, a chunk drained from the buffer, the last byte, Close of the output, gzip header / blocks / trailer
+		for ek := 1; ek < len(c18Kinds); ek++ {
+			oneE(w, 0, "0", 0, 1, ek, small)
+			oneE(w, 0, "100", 0, 1, ek, small)  // surfaces at the final flush only
+			oneE(w, 0, "2000", 0, 1, ek, big)   // chunk 0, written in turn
+			oneE(w, 0, "5000", 0, 1, ek, big)   // chunk 1, drained from the re-sequencing buffer
+			oneE(w, 0, "z-1", 0, 1, ek, big)    // last byte
+			oneE(w, 0, "z", 1, 1, ek, small)    // only Close fails
+			oneE(w, 0, "100", 0, 0, ek, small)  // not owned
+			oneE(w, 1, "z/2", 0, 1, ek, small)  // compressed: last block
+			oneE(w, 1, []string{"9", "z-1", "z-8", "10"}[ek%4], 0, 1, ek, big)
+		}
+		for _, ek := range []int{1, 7, 8} {
+			add(fmt.Sprintf("dev %s beh=temp:1 cf=0 own=1 ek=%d %s", w, ek, c18ArrStr(big)))
+			add(fmt.Sprintf("dev %s beh=partial:0:7 cf=0 own=1 ek=%d %s", w, ek, c18ArrStr(big)))
+			add(fmt.Sprintf("multi %s gz=0 own=1 / k=1048576 cf=0 zlen=0 ek=%d %s / k=100 cf=0 zlen=0 ek=%d %s", w, ek, c18ArrStr(small), ek, c18ArrStr(small)))
+		}
 		// scripted io.Writer: short writes with a nil error, temporary errors
 		for _, beh := range []string{"short:1", "short:100", "short:4096", "short:5000", "temp:0", "temp:1", "temp:2", "partial:0:7", "partial:1:100", "errfull:0", "errfull:1"} {
 			add(fmt.Sprintf("dev %s beh=%s cf=0 own=1 %s", w, beh, c18ArrStr(big)))
@@ -326,6 +397,32 @@ func (c18) Gen(rng *rand.Rand, tier string, emit func(string)) {
 		add(fmt.Sprintf("disp %s gz=1 own=1 / k=z-1 cf=0 zlen=0 0:7:- / k=1048576 cf=0 zlen=0 0:60:-", w))
 		add(fmt.Sprintf("disp %s gz=0 own=1 / k=1048576 cf=0 zlen=0 0:7:- / k=1048576 cf=1 zlen=0 0:5:-", w))
 		add(fmt.Sprintf("disp %s gz=0 own=1 / k=z cf=0 zlen=0 0:7:- / k=z+1 cf=0 zlen=0 0:45:-", w))
+		for _, ek := range []int{1, 2, 5, 7, 8} {
+			add(fmt.Sprintf("disp %s gz=0 own=1 / k=1048576 cf=0 zlen=0 ek=%d 0:7:- / k=z/2 cf=0 zlen=0 ek=%d 0:60:-", w, ek, ek))
+		}
+	}
+	// obiutils.Wfile directly, a fault at every offset of the stream (in-process sweep), every error kind
+	for ek := 0; ek < len(c18Kinds); ek++ {
+		// compressed, every offset of a small stream (each run of pgzip allocates its 1 MiB block buffers: kept small)
+		add(fmt.Sprintf("wf gz=1 own=1 cf=0 ek=%d ks=all zlen=0 g%dx70 - g%dx50", ek, ek+1, ek+2))
+		add(fmt.Sprintf("wf gz=%d own=1 cf=0 ek=%d ks=bounds zlen=0 g%dx4096 g%dx1 g%dx4095 g%dx9000", ek%2, ek, ek+1, ek+2, ek+3, ek+4))
+		add(fmt.Sprintf("wf gz=0 own=1 cf=0 ek=%d ks=all zlen=0 g%dx30 g%dx70 - g%dx20", ek, ek+1, ek+2, ek+3))
+	}
+	// uncompressed, every offset of a stream larger than the buffer (buffered chunk, direct write of a large chunk)
+	add("wf gz=0 own=1 cf=0 ek=1 ks=all zlen=0 g1x300 g2x4200 - g3x200")
+	add("wf gz=0 own=0 cf=0 ek=8 ks=all zlen=0 g1x4096 g2x1 g3x300")
+	if tier == "thorough" {
+		add("wf gz=1 own=1 cf=0 ek=7 ks=all zlen=0 g1x700 g2x5000 - g3x300")
+	}
+	add("wf gz=0 own=1 cf=1 ek=3 ks=bounds zlen=0 g1x700 g2x5000")
+	add("wf gz=1 own=1 cf=1 ek=1 ks=bounds zlen=0 g1x700 g2x5000")
+	add("wf gz=0 own=0 cf=1 ek=1 ks=bounds zlen=0 g1x700 g2x5000")
+	add("wf gz=1 own=0 cf=1 ek=7 ks=all zlen=0 g1x70 g2x50")
+	add("wf gz=1 own=1 cf=0 ek=0 ks=all zlen=0")    // nothing is ever written: header, empty last block and trailer at Close
+	add("wf gz=0 own=1 cf=0 ek=0 ks=all zlen=0 - -") // empty result
+	if tier == "thorough" {
+		// more than two pgzip blocks (1 MiB of input each): faults at every write boundary of the listener goroutine
+		add(fmt.Sprintf("wf gz=1 own=1 cf=0 ek=%d ks=bounds zlen=0 g7x1200000 g8x1100000 g9x50000", 1+rng.Intn(len(c18Kinds)-1)))
 	}
 	// the real commands as subprocesses: cmd <command> <scenario> <nrecords> <k> <format>
 	cmd := func(name, sc string, n, k int, fm string) { add(fmt.Sprintf("cmd %s %s %d %d %s", name, sc, n, k, fm)) }
@@ -356,9 +453,32 @@ func (c18) Gen(rng *rand.Rand, tier string, emit func(string)) {
 			cmd(name, "devfull", 3, 0, fm)
 			cmd(name, "devfull", 1500, 0, fm)
 			cmd(name, "nodir", 3, 0, fm)
-			cmd(name, "fifo", 4000, []int{0, 1, 4095, 4096, 4097}[rng.Intn(5)], fm)
+			cmd(name, "notdir", 3, 0, fm)
+			cmd(name, "sysdir", 3, 0, fm)
+			cmd(name, "fifo", 4000, 0, fm) // the reader is gone before the first byte: EPIPE on the first write to the file
+			cmd(name, "fifo", 4000, []int{1, 4095, 4096, 4097}[rng.Intn(4)], fm)
 		}
 	}
+	// the output cannot be opened (missing / not writable directory, a directory in place of the file), a device
+	// answering EIO, FIFOs in place of one file of a paired output / of obidistribute, --append on existing files
+	for _, fm := range []string{"fasta", "fastq", "json", "gz"} {
+		cmd("obiconvert", "isdir", 3, 0, fm)
+		cmd("obiconvert", "rodir", 3, 0, fm)
+		cmd("obiconvert", "eio", 3, 0, fm)
+		cmd("obiconvert", "eio", 1500, 0, fm)
+	}
+	cmd("obiconvert", "fifo", 4000, 0, "fastq")
+	cmd("obiconvert", "fifo", 4000, 4097, "fastq")
+	cmd("obiconvert", "fifo", 20000, 0, "gz")
+	cmd("obiconvert", "fifo", 20000, 11, "json-gz")
+	cmd("obiconvert", "paired-fifo", 4000, 0, "fastq")
+	cmd("obiconvert", "paired-fifo", 4000, 4096, "fasta")
+	cmd("obidistribute", "distribute-fifo", 4000, 0, "fasta")
+	cmd("obidistribute", "distribute-fifo", 4000, 4097, "fastq")
+	cmd("obidistribute", "distribute-nodir", 40, 0, "fasta")
+	cmd("obidistribute", "distribute-isdir", 40, 0, "fasta")
+	cmd("obidistribute", "nofault-distribute-append", 40, 0, "fasta")
+	cmd("obidistribute", "nofault-distribute-append", 40, 0, "fastq")
 	for _, fm := range []string{"fastq", "json", "gz", "fastq-gz", "json-gz"} {
 		cmd("obiconvert", "devfull", 3, 0, fm)
 		cmd("obiconvert", "devfull", 1500, 0, fm)
@@ -394,7 +514,7 @@ func (c18) Gen(rng *rand.Rand, tier string, emit func(string)) {
 		case r < 2:
 			behs := []string{fmt.Sprintf("short:%d", 1+rng.Intn(6000)), fmt.Sprintf("temp:%d", rng.Intn(4)),
 				fmt.Sprintf("partial:%d:%d", rng.Intn(4), rng.Intn(5000)), fmt.Sprintf("errfull:%d", rng.Intn(4))}
-			add(fmt.Sprintf("dev %s beh=%s cf=%d own=%d %s", w, behs[rng.Intn(4)], rng.Intn(8)/7, own, c18ArrStr(arr)))
+			add(fmt.Sprintf("dev %s beh=%s cf=%d own=%d ek=%d %s", w, behs[rng.Intn(4)], rng.Intn(8)/7, own, rng.Intn(len(c18Kinds)), c18ArrStr(arr)))
 			continue
 		case r < 5 && (w == "fasta" || w == "fastq"):
 			nf := 1 + rng.Intn(4)
@@ -406,7 +526,7 @@ func (c18) Gen(rng *rand.Rand, tier string, emit func(string)) {
 				if j == bad {
 					k = []string{"z-1", "0", strconv.Itoa(rng.Intn(m*130 + 50)), "z/2"}[rng.Intn(4)]
 				}
-				l += fmt.Sprintf(" / k=%s cf=0 zlen=0 0:%d:-", k, m)
+				l += fmt.Sprintf(" / k=%s cf=0 zlen=0 ek=%d 0:%d:-", k, rng.Intn(len(c18Kinds)), m)
 			}
 			add(l)
 			continue
@@ -420,7 +540,7 @@ func (c18) Gen(rng *rand.Rand, tier string, emit func(string)) {
 				if j == bad {
 					k = []string{"z-1", "0", strconv.Itoa(rng.Intn(tot + 50)), "z/2"}[rng.Intn(4)]
 				}
-				l += fmt.Sprintf(" / k=%s cf=0 zlen=0 %s", k, c18ArrStr(a))
+				l += fmt.Sprintf(" / k=%s cf=0 zlen=0 ek=%d %s", k, rng.Intn(len(c18Kinds)), c18ArrStr(a))
 			}
 			add(l)
 			continue
@@ -438,7 +558,14 @@ func (c18) Gen(rng *rand.Rand, tier string, emit func(string)) {
 		if rng.Intn(12) == 0 {
 			cf = 1
 		}
-		oneK(w, gz, k, cf, own, arr)
+		oneE(w, gz, k, cf, own, rng.Intn(len(c18Kinds)), arr)
+	}
+	for i := 0; i < n/50; i++ {
+		l := fmt.Sprintf("wf gz=%d own=%d cf=%d ek=%d ks=%s zlen=0", rng.Intn(2), 1-rng.Intn(4)/3, rng.Intn(6)/5, rng.Intn(len(c18Kinds)), []string{"bounds", "all"}[rng.Intn(4)/3])
+		for j, nc := 0, 1+rng.Intn(5); j < nc; j++ {
+			l += fmt.Sprintf(" g%dx%d", rng.Intn(1000), []int{0, 1, rng.Intn(300), rng.Intn(5000), 4096, rng.Intn(9000)}[rng.Intn(6)])
+		}
+		add(l)
 	}
 	if tier == "thorough" && rng.Intn(2) == 0 {
 		// results larger than one pgzip block (1 MiB of input): blocks are written before Close
@@ -476,7 +603,7 @@ func c18NeedsChild(f []string) bool {
 		return false
 	}
 	switch f[0] {
-	case "cmd":
+	case "cmd", "wf":
 		return false
 	case "dev", "multi", "disp":
 		return true
@@ -565,6 +692,8 @@ func (c18) Exec(c string) (string, []Fail) {
 		return c18Child(c).deliver()
 	}
 	switch f[0] {
+	case "wf":
+		return c18ExecWf(f)
 	case "dev":
 		return c18ExecDev(f)
 	case "multi":
@@ -748,6 +877,18 @@ func c18Get(s, key string) (int, bool) {
 	return v, err == nil
 }
 
+// c18TakeEk: an optional `ek=<kind>` field in front of the chunks (absent: kind 0, the plain error)
+func c18TakeEk(fs []string) (int, []string, bool) {
+	if len(fs) > 0 && strings.HasPrefix(fs[0], "ek=") {
+		ek, err := strconv.Atoi(fs[0][3:])
+		if err != nil || ek < 0 || ek >= len(c18Kinds) {
+			return 0, nil, false
+		}
+		return ek, fs[1:], true
+	}
+	return 0, fs, true
+}
+
 func c18ExecOne(f []string) (string, []Fail) {
 	if len(f) < 6 {
 		return "bad-op", nil
@@ -759,7 +900,11 @@ func c18ExecOne(f []string) (string, []Fail) {
 	if !ok1 || !ok3 || !ok4 || !strings.HasPrefix(f[2], "k=") || !strings.HasPrefix(f[4], "zlen=") {
 		return "bad-op", nil
 	}
-	arrival, ok := c18ParseArr(f[6:])
+	ek, rest, okk := c18TakeEk(f[6:])
+	if !okk {
+		return "bad-op", nil
+	}
+	arrival, ok := c18ParseArr(rest)
 	if !ok {
 		return "bad-op", nil
 	}
@@ -773,8 +918,11 @@ func c18ExecOne(f []string) (string, []Fail) {
 	if !ok {
 		return "bad-op", nil
 	}
-	caseOverride = fmt.Sprintf("%s gz=%d k=%d cf=%d zlen=%d own=%d %s", w, gz, k, cf, zlen, own, strings.Join(texts, " "))
-	sink := &failSink{limit: k, closeErr: cf == 1}
+	caseOverride = fmt.Sprintf("%s gz=%d k=%d cf=%d zlen=%d own=%d ek=%d %s", w, gz, k, cf, zlen, own, ek, strings.Join(texts, " "))
+	sink := &failSink{limit: k, closeErr: cf == 1, ek: ek}
+	if k < zlen || (cf == 1 && own == 1) {
+		stat("errkind:" + c18Kinds[ek])
+	}
 	out := c18Run(w, gz == 1, own == 1, arrival, sink)
 	sink.mu.Lock()
 	got := append([]byte{}, sink.buf.Bytes()...)
@@ -818,12 +966,13 @@ func c18ExecDev(f []string) (string, []Fail) {
 	w := f[1]
 	cf, ok1 := c18Get(f[3], "cf")
 	own, ok2 := c18Get(f[4], "own")
-	arrival, ok3 := c18ParseArr(f[5:])
+	ek, rest, okk := c18TakeEk(f[5:])
+	arrival, ok3 := c18ParseArr(rest)
 	bp := strings.Split(f[2][4:], ":")
-	if !ok1 || !ok2 || !ok3 || len(bp) < 2 {
+	if !ok1 || !ok2 || !ok3 || !okk || len(bp) < 2 {
 		return "bad-op", nil
 	}
-	sink := &behSink{kind: bp[0], closeErr: cf == 1}
+	sink := &behSink{kind: bp[0], closeErr: cf == 1, ek: ek}
 	var err error
 	if sink.a, err = strconv.Atoi(bp[1]); err != nil {
 		return "bad-op", nil
@@ -841,7 +990,10 @@ func c18ExecDev(f []string) (string, []Fail) {
 	if !ok {
 		return "bad-op", fails
 	}
-	caseOverride = fmt.Sprintf("dev %s %s cf=%d own=%d %s", w, f[2], cf, own, strings.Join(texts, " "))
+	caseOverride = fmt.Sprintf("dev %s %s cf=%d own=%d ek=%d %s", w, f[2], cf, own, ek, strings.Join(texts, " "))
+	if sink.kind != "short" {
+		stat("errkind:" + c18Kinds[ek])
+	}
 	out := c18Run(w, false, own == 1, arrival, sink)
 	sink.mu.Lock()
 	got := append([]byte{}, sink.buf.Bytes()...)
@@ -889,8 +1041,9 @@ func c18ExecMulti(f []string) (string, []Fail) {
 			return "bad-op", nil
 		}
 		cf, okc := c18Get(g[1], "cf")
-		arrival, oka := c18ParseArr(g[3:])
-		if !okc || !oka {
+		ek, rest, okk := c18TakeEk(g[3:])
+		arrival, oka := c18ParseArr(rest)
+		if !okc || !oka || !okk {
 			return "bad-op", nil
 		}
 		expected, texts, fs, ok := c18Reference(w, gz == 1, own == 1, arrival)
@@ -902,8 +1055,11 @@ func c18ExecMulti(f []string) (string, []Fail) {
 		if !ok {
 			return "bad-op", nil
 		}
-		over += fmt.Sprintf(" / k=%d cf=%d zlen=%d %s", k, cf, len(expected), strings.Join(texts, " "))
-		files = append(files, file{arrival, expected, &failSink{limit: k, closeErr: cf == 1}, k, cf})
+		over += fmt.Sprintf(" / k=%d cf=%d zlen=%d ek=%d %s", k, cf, len(expected), ek, strings.Join(texts, " "))
+		files = append(files, file{arrival, expected, &failSink{limit: k, closeErr: cf == 1, ek: ek}, k, cf})
+		if k < len(expected) || (cf == 1 && own == 1) {
+			stat("errkind:" + c18Kinds[ek])
+		}
 	}
 	caseOverride = over
 	stat(fmt.Sprintf("multi:%d-writers", len(files)))
@@ -1033,18 +1189,19 @@ func c18ExecDisp(f []string) (string, []Fail) {
 		}
 	}
 	groups = append(groups, cur)
-	var counts, cfs []int
+	var counts, cfs, eks []int
 	var ks []string
 	for _, g := range groups {
-		if len(g) != 4 || !strings.HasPrefix(g[0], "k=") {
+		if len(g) < 4 || !strings.HasPrefix(g[0], "k=") {
 			return "bad-op", nil
 		}
 		cf, okc := c18Get(g[1], "cf")
-		arr, oka := c18ParseArr(g[3:])
-		if !okc || !oka || len(arr) != 1 || arr[0].n < 1 {
+		ek, rest, okk := c18TakeEk(g[3:])
+		arr, oka := c18ParseArr(rest)
+		if !okc || !oka || !okk || len(arr) != 1 || arr[0].n < 1 {
 			return "bad-op", nil
 		}
-		counts, cfs, ks = append(counts, arr[0].n), append(cfs, cf), append(ks, g[0][2:])
+		counts, cfs, ks, eks = append(counts, arr[0].n), append(cfs, cf), append(ks, g[0][2:]), append(eks, ek)
 	}
 	// reference run: sinks that never fail
 	refs := make([]*failSink, len(counts))
@@ -1076,10 +1233,11 @@ func c18ExecDisp(f []string) (string, []Fail) {
 		if nrec != counts[j] {
 			fails = append(fails, Fail{Sig: w + ".dispatcher.silent-loss.no-fault", Text: fmt.Sprintf("file %d holds %d of %d records on a sink that never fails", j, nrec, counts[j])})
 		}
-		over += fmt.Sprintf(" / k=%d cf=%d zlen=%d 0:%d:%s", k, cfs[j], len(exp), counts[j], hx(text))
-		sinks[j] = &failSink{limit: k, closeErr: cfs[j] == 1}
+		over += fmt.Sprintf(" / k=%d cf=%d zlen=%d ek=%d 0:%d:%s", k, cfs[j], len(exp), eks[j], counts[j], hx(text))
+		sinks[j] = &failSink{limit: k, closeErr: cfs[j] == 1, ek: eks[j]}
 		if k < len(exp) || cfs[j] == 1 {
 			anyBad = true
+			stat("errkind:" + c18Kinds[eks[j]])
 		}
 	}
 	caseOverride = over
@@ -1105,6 +1263,214 @@ func c18ExecDisp(f []string) (string, []Fail) {
 		return "exit1", fails
 	}
 	return out, fails
+}
+
+// ---------------------------------------------------------------------------------------------
+// obiutils.Wfile (bufio over [pgzip over] the output) driven directly, a fault at EVERY offset of the (compressed)
+// stream: no writer goroutine, no log.Fatal, so the whole sweep runs in-process.
+//   wf gz=<g> own=<o> cf=<c> ek=<kind> ks=<all|bounds|k,k,...> zlen=<n> <chunk> ...     chunk = hex | g<seed>x<len>
+
+func c18GenBytes(seed, n int) []byte {
+	b := make([]byte, n)
+	x := uint64(seed)
+	for i := range b {
+		x = (x*1103515245 + 12345) & 0x7fffffff
+		b[i] = "acgt"[(x>>16)&3]
+	}
+	return b
+}
+
+func c18WfChunk(spec string) ([]byte, bool) {
+	if strings.HasPrefix(spec, "g") {
+		q := strings.Split(spec[1:], "x")
+		if len(q) != 2 {
+			return nil, false
+		}
+		seed, e1 := strconv.Atoi(q[0])
+		n, e2 := strconv.Atoi(q[1])
+		if e1 != nil || e2 != nil || n < 0 || n > 1<<23 {
+			return nil, false
+		}
+		return c18GenBytes(seed, n), true
+	}
+	if spec == "-" {
+		return []byte{}, true
+	}
+	return unhx(spec)
+}
+
+type c18WfRun struct {
+	got      []byte
+	calls    []int
+	first    int // index of the first call that returned an error (len(chunks) = Close), -1: none
+	failCall int // index of the call during which the sink refused a byte for the first time, -1: never
+	sticky   bool
+	same     bool // every error returned is (wraps) the error injected by the sink
+}
+
+func c18WfOnce(gz, own bool, chunks [][]byte, sink *failSink) c18WfRun {
+	r := c18WfRun{first: -1, failCall: -1, sticky: true, same: true}
+	wf, _ := obiutils.CompressStream(sink, gz, own)
+	note := func(i int, err error) {
+		sink.mu.Lock()
+		injected := sink.werr
+		sink.mu.Unlock()
+		if injected != nil && r.failCall < 0 {
+			r.failCall = i
+		}
+		if err != nil {
+			if r.first < 0 {
+				r.first = i
+			}
+			isClose := i == len(chunks) && sink.closeErr && own
+			if !(injected != nil && errors.Is(err, injected)) && !isClose {
+				r.same = false
+			}
+		} else if r.first >= 0 {
+			r.sticky = false
+		}
+	}
+	for i, c := range chunks {
+		_, err := wf.Write(c)
+		note(i, err)
+	}
+	note(len(chunks), wf.Close())
+	sink.mu.Lock()
+	r.got = append([]byte{}, sink.buf.Bytes()...)
+	r.calls = append([]int{}, sink.calls...)
+	sink.mu.Unlock()
+	return r
+}
+
+func c18ExecWf(f []string) (string, []Fail) {
+	if len(f) < 7 {
+		return "bad-op", nil
+	}
+	gz, ok1 := c18Get(f[1], "gz")
+	own, ok2 := c18Get(f[2], "own")
+	cf, ok3 := c18Get(f[3], "cf")
+	ek, ok4 := c18Get(f[4], "ek")
+	if !ok1 || !ok2 || !ok3 || !ok4 || ek < 0 || ek >= len(c18Kinds) || !strings.HasPrefix(f[5], "ks=") || !strings.HasPrefix(f[6], "zlen=") {
+		return "bad-op", nil
+	}
+	var chunks [][]byte
+	for _, c := range f[7:] {
+		b, ok := c18WfChunk(c)
+		if !ok {
+			return "bad-op", nil
+		}
+		chunks = append(chunks, b)
+	}
+	ref := c18WfOnce(gz == 1, own == 1, chunks, &failSink{limit: 1 << 30})
+	var fails []Fail
+	sig := "wfile." + []string{"plain", "gz"}[gz&1]
+	if ref.first >= 0 {
+		return "bad-op", []Fail{{Sig: sig + ".reference-run", Text: "Wfile fails on a sink that never fails"}}
+	}
+	expected := ref.got
+	zlen := len(expected)
+	var all []byte
+	for _, c := range chunks {
+		all = append(all, c...)
+	}
+	plain := expected
+	if gz == 1 {
+		plain = c18Gunzip(expected)
+	}
+	if !bytes.Equal(plain, all) {
+		fails = append(fails, Fail{Sig: sig + ".silent-loss.no-fault", Text: fmt.Sprintf("no fault: the sink holds %d of %d bytes", len(plain), len(all))})
+	}
+	// the offsets swept
+	var ks []int
+	switch spec := f[5][3:]; spec {
+	case "all":
+		for k := 0; k <= zlen+1; k++ {
+			ks = append(ks, k)
+		}
+	case "bounds":
+		seen := map[int]bool{}
+		addk := func(k int) {
+			if k >= 0 && k <= zlen+1 && !seen[k] {
+				seen[k] = true
+				ks = append(ks, k)
+			}
+		}
+		b := 0
+		for _, c := range ref.calls { // the write boundaries of bufio / of pgzip (header, blocks, last block, trailer)
+			for d := -1; d <= 1; d++ {
+				addk(b + d)
+			}
+			b += c
+		}
+		for d := -1; d <= 1; d++ {
+			addk(zlen + d)
+		}
+		for i := 1; i < 24; i++ {
+			addk(zlen * i / 24)
+		}
+	default:
+		for _, x := range strings.Split(spec, ",") {
+			k, err := strconv.Atoi(x)
+			if err != nil || k < 0 {
+				return "bad-op", nil
+			}
+			ks = append(ks, k)
+		}
+	}
+	kss := make([]string, len(ks))
+	for i, k := range ks {
+		kss[i] = strconv.Itoa(k)
+	}
+	caseOverride = fmt.Sprintf("wf gz=%d own=%d cf=%d ek=%d ks=%s zlen=%d %s", gz, own, cf, ek, strings.Join(kss, ","), zlen, strings.Join(f[7:], " "))
+	stat("wfile-sweep")
+	stat("errkind:" + c18Kinds[ek])
+	if len(ref.calls) > 4 && gz == 1 {
+		stat("wfile-sweep:several-pgzip-blocks")
+	}
+	nfatal, nok, sumgot, firstok, sumfirst := 0, 0, 0, -1, 0
+	closeMustFail := cf == 1 && own == 1
+	for _, k := range ks {
+		r := c18WfOnce(gz == 1, own == 1, chunks, &failSink{limit: k, closeErr: cf == 1, ek: ek})
+		stat("wfile-sweep:offsets")
+		at := fmt.Sprintf(" (fault after %d of %d bytes, error kind %s)", k, zlen, c18Kinds[ek])
+		if !bytes.HasPrefix(expected, r.got) {
+			fails = append(fails, Fail{Sig: sig + ".not-a-prefix", Text: "the sink does not hold a prefix of the complete stream" + at})
+		}
+		if r.first < 0 {
+			nok++
+			if firstok < 0 {
+				firstok = k
+			}
+			if !bytes.Equal(r.got, expected) {
+				fails = append(fails, Fail{Sig: sig + ".silent-loss", Text: fmt.Sprintf("no call of Wfile returned an error but the sink holds %d bytes", len(r.got)) + at})
+			}
+			if closeMustFail {
+				fails = append(fails, Fail{Sig: sig + ".silent-loss.close", Text: "the Close of the output failed but Wfile.Close returned nil" + at})
+			}
+			sumfirst += len(chunks) + 1
+		} else {
+			nfatal++
+			sumfirst += r.first
+			if k >= zlen && !closeMustFail {
+				fails = append(fails, Fail{Sig: sig + ".false-alarm", Text: "every byte fits but Wfile returned an error" + at})
+			}
+			if !r.sticky {
+				fails = append(fails, Fail{Sig: sig + ".not-sticky", Text: "a call of Wfile returned nil after an earlier call had returned an error" + at})
+			}
+			if !r.same {
+				fails = append(fails, Fail{Sig: sig + ".error-replaced", Text: "Wfile returned an error that is not the one injected by the output" + at})
+			}
+			if r.failCall > r.first {
+				fails = append(fails, Fail{Sig: sig + ".visibility", Text: "an error was returned before the output had refused a byte" + at})
+			}
+		}
+		sumgot += len(r.got)
+	}
+	res := fmt.Sprintf("n=%d fatal=%d ok=%d sumgot=%d firstok=%d", len(ks), nfatal, nok, sumgot, firstok)
+	if gz == 0 {
+		res += fmt.Sprintf(" sumfirst=%d", sumfirst) // bufio is deterministic: the call that reports the error is predicted
+	}
+	return res, fails
 }
 
 // ---------------------------------------------------------------------------------------------
@@ -1242,26 +1608,14 @@ func c18Cmd(f []string) (res c18Res) {
 		}
 		return st.Size()
 	}
-	switch sc {
-	case "devfull":
-		args = append(args, "-o", "/dev/full")
-	case "nodir":
-		args = append(args, "-o", filepath.Join(dir, "no", "such", "dir", "out."+ext))
-	case "stdoutfull":
-		stdout, _ = os.OpenFile("/dev/full", os.O_WRONLY, 0)
-	case "closedpipe":
-		pr, pw, _ := os.Pipe()
-		pr.Close()
-		stdout = pw
-	case "fifo":
-		// the output is a FIFO whose reader goes away after k bytes; the result is far larger than k + the pipe buffer
-		fifo := filepath.Join(dir, "out.fifo")
+	// mkFifo: p is a FIFO whose reader (this process) goes away after k bytes, once the command has opened it
+	mkFifo := func(fifo string) bool {
 		if err := syscall.Mkfifo(fifo, 0o600); err != nil {
-			return bad("", "")
+			return false
 		}
 		rd, err := os.OpenFile(fifo, os.O_RDWR, 0)
 		if err != nil {
-			return bad("", "")
+			return false
 		}
 		fifoReader = func(pid int) {
 			// wait until the command has opened the FIFO (k = 0: the reader would be gone before)
@@ -1280,7 +1634,110 @@ func c18Cmd(f []string) (res c18Res) {
 			rd.Close()
 		}
 		after = func() { rd.Close() }
+		return true
+	}
+	switch sc {
+	case "devfull":
+		args = append(args, "-o", "/dev/full")
+	case "nodir":
+		args = append(args, "-o", filepath.Join(dir, "no", "such", "dir", "out."+ext))
+	case "stdoutfull":
+		stdout, _ = os.OpenFile("/dev/full", os.O_WRONLY, 0)
+	case "closedpipe":
+		pr, pw, _ := os.Pipe()
+		pr.Close()
+		stdout = pw
+	case "fifo":
+		// the output is a FIFO whose reader goes away after k bytes; the result is far larger than k + the pipe buffer
+		fifo := filepath.Join(dir, "out.fifo")
+		if !mkFifo(fifo) {
+			return bad("", "")
+		}
 		args = append(args, "-o", fifo)
+	case "paired-fifo":
+		// the second file of a paired output is a FIFO whose reader goes away
+		in = []string{r1, "--paired-with", r2}
+		if ext == "fasta" {
+			in = append(in, "--fasta-output")
+		}
+		if !mkFifo(filepath.Join(dir, "out_R2."+ext)) {
+			return bad("", "")
+		}
+		args = append(args, "-o", outFile)
+	case "distribute-fifo":
+		// one of the files of obidistribute is a FIFO whose reader goes away
+		suffix := ""
+		if strings.Contains(fm, "gz") {
+			suffix = ".gz"
+		}
+		if !mkFifo(filepath.Join(dir, "d_B."+ext+suffix)) {
+			return bad("", "")
+		}
+		args = append(args, "-p", filepath.Join(dir, "d_%s."+ext), "-c", "sample")
+	case "notdir":
+		// a component of the path of the output is a regular file
+		os.WriteFile(filepath.Join(dir, "afile"), []byte("x"), 0o644)
+		args = append(args, "-o", filepath.Join(dir, "afile", "out."+ext))
+	case "isdir":
+		os.Mkdir(filepath.Join(dir, "adir."+ext), 0o755)
+		args = append(args, "-o", filepath.Join(dir, "adir."+ext))
+	case "sysdir":
+		// a directory in which nobody, not even root, can create a file
+		args = append(args, "-o", "/sys/c18-verif-out."+ext)
+	case "rodir", "nofault-rodir":
+		// a directory without write permission; a process that can write there all the same (root) makes it a no-fault scenario
+		ro := filepath.Join(dir, "ro")
+		os.Mkdir(ro, 0o555)
+		defer os.Chmod(ro, 0o755)
+		sc = "rodir"
+		if pf, err := os.Create(filepath.Join(ro, "probe")); err == nil {
+			pf.Close()
+			os.Remove(filepath.Join(ro, "probe"))
+			sc = "nofault-rodir"
+			f[2] = sc
+			res.over = strings.Join(f, " ")
+		}
+		args = append(args, "-o", filepath.Join(ro, "out."+ext))
+		produced = func() int64 { return fileSize(filepath.Join(ro, "out."+ext)) }
+	case "eio":
+		// a device every write on which fails with EIO (the memory of the process itself, address 0)
+		args = append(args, "-o", "/proc/self/mem")
+	case "distribute-nodir", "distribute-isdir":
+		if sc == "distribute-isdir" {
+			os.Mkdir(filepath.Join(dir, "d_B."+ext), 0o755)
+			args = append(args, "-p", filepath.Join(dir, "d_%s."+ext), "-c", "sample")
+		} else {
+			args = append(args, "-p", filepath.Join(dir, "no", "such", "dir", "d_%s."+ext), "-c", "sample")
+		}
+	case "nofault-distribute-append":
+		// --append on files that exist: what the run adds is what a run without --append writes
+		refdir := filepath.Join(dir, "ref")
+		os.Mkdir(refdir, 0o755)
+		rc := exec.Command(bin, append(append([]string{}, in...), append(append([]string{}, args...), "-p", filepath.Join(refdir, "d_%s."+ext), "-c", "sample")...)...)
+		rc.Env = c18CmdEnv()
+		if err := rc.Run(); err != nil {
+			return bad("cmd.obidistribute.reference-run", err.Error())
+		}
+		old := []byte(">old\nacgt\n")
+		for _, x := range []string{"A", "B"} { // C does not exist before
+			os.WriteFile(filepath.Join(dir, "d_"+x+"."+ext), old, 0o644)
+		}
+		args = append(args, "--append", "-p", filepath.Join(dir, "d_%s."+ext), "-c", "sample")
+		produced = func() int64 {
+			t := int64(0)
+			for _, x := range []string{"A", "B", "C"} {
+				want, e1 := os.ReadFile(filepath.Join(refdir, "d_"+x+"."+ext))
+				have, e2 := os.ReadFile(filepath.Join(dir, "d_"+x+"."+ext))
+				if x != "C" {
+					want = append(append([]byte{}, old...), want...)
+				}
+				if e1 != nil || e2 != nil || len(want) == 0 || !bytes.Equal(want, have) {
+					return 0
+				}
+				t += int64(len(have))
+			}
+			return t
+		}
 	case "nofault":
 		if name == "obicsv" {
 			stdout, _ = os.Create(outFile)
@@ -1341,13 +1798,7 @@ func c18Cmd(f []string) (res c18Res) {
 		cmd.Stdout = stdout
 		defer stdout.Close()
 	}
-	env := []string{}
-	for _, e := range os.Environ() {
-		if !strings.HasPrefix(e, "C18_CHILD=") {
-			env = append(env, e)
-		}
-	}
-	cmd.Env = env
+	cmd.Env = c18CmdEnv()
 	done := make(chan error, 1)
 	if err := cmd.Start(); err != nil {
 		return bad("cmd.start", err.Error())
@@ -1404,6 +1855,16 @@ func c18Cmd(f []string) (res c18Res) {
 		res.stats["subprocess:killed-by-signal"]++
 	}
 	return res
+}
+
+func c18CmdEnv() []string {
+	env := []string{}
+	for _, e := range os.Environ() {
+		if !strings.HasPrefix(e, "C18_CHILD=") {
+			env = append(env, e)
+		}
+	}
+	return env
 }
 
 func c18Tail(s string) string {
